@@ -116,7 +116,8 @@ pub fn chaos_case(ctx: &Ctx, case: u64, acc: &mut Acc, opts: &ChaosOpts) -> Resu
             (i, Op::AddBroadcast(make_item(item_tag, r.below(4) as u8, r.below(4) as u8, len, 0xAB)), false)
         } else if opts.set_config && r.chance(1, 2) {
             let mut c2 = peers[i].node.cfg.clone();
-            match r.below(7) {
+            match r.below(8) {
+                7 => c2.mps = (*r.pick(&[40usize, 60, 90, 150, 400, 1400])).max(min_mps(codec)),
                 0 => c2.tx = *r.pick(&[1u8, 2, 5, 20]),
                 1 => c2.k = r.range(1, 4) as usize,
                 2 => c2.pg = None,
